@@ -380,6 +380,25 @@ def run(tier):
         ev.write()
         return 2
     replays += nexecs
+    # ---- 6. the abstract pool for every N <= 24 and behaviours of any length: inductive invariant with Apalache ------
+    def apalache(module_dir, init, inv, length):
+        try:
+            pr = subprocess.run(["apalache-mc", "check", "--cinit=ConstInit", "--init=" + init, "--next=ANext", "--inv=" + inv, "--length=%d" % length,
+                                 "--out-dir=" + work + "/apa", "PoolAbsInd.tla"], cwd=module_dir, capture_output=True, text=True, timeout=900)
+        except subprocess.TimeoutExpired:
+            return "timeout"
+        return "ok" if "EXITCODE: OK" in pr.stdout else ("violated" if "violat" in pr.stdout.lower() or "EXITCODE: ERROR (12)" in pr.stdout else "error")
+    ind = {"initiation": apalache(VERIF + "/spec", "AInit", "IndInv", 0), "consecution": apalache(VERIF + "/spec", "IndInit", "IndInv", 1),
+           "IndInv=>AFifoOnce": apalache(VERIF + "/spec", "IndInit", "AFifoOnce", 0)}
+    # anti-vacuity: a pool that hands back a ticket without looking whether it was processed is not inductive
+    os.makedirs(work + "/apam", exist_ok=True)
+    open(work + "/apam/PoolAbsInd.tla", "w").write(open(VERIF + "/spec/PoolAbsInd.tla").read().replace("/\\ (aRet + 1) \\in aProc ", ""))
+    ind["mutant(AReturn without the processed test) rejected"] = apalache(work + "/apam", "IndInit", "IndInv", 1) == "violated"
+    ev.set("apalache_inductive_invariant(PoolAbs, N<=24, unbounded length)", ind)
+    if [v for k, v in ind.items() if v not in ("ok", True)]:
+        print("MODEL-FAILURE: inductive invariant of PoolAbs not established: %s" % ind)
+        ev.write()
+        return 2
     ev.set("random_schedules", nrand)
     ev.set("random_schedules_cut_by_step_bound", unfinished)
     ev.set("traces_validated_against_impl", replays)
